@@ -37,7 +37,7 @@ def job_dfa_accepts(job, n, k, maxlen):
     nd = c.native('dfa_algorithms')
     job.differential(40, lambda mv: {w: c.conc(results[w], mv) for w in words},
                      lambda mv: {w: nd.dfa_accepts_word(nat.mk_dfa(view.to_json(mv), c.native('dfa')), w) for w in words},
-                     'dfa_accepts_word')
+                     'dfa_accepts_word', replay=('dfa_accepts', {'D': view.to_json, 'word': words[-1]}))
     for w in words:
         bad = d.iff(E.lit(results[w]), view.accepts(w)) ^ 1
         job.oblige('dfa_accepts_word(D, %r) == reference' % w, bad, replay=('dfa_accepts', {'D': view.to_json, 'word': w}))
@@ -106,7 +106,7 @@ def job_nfa_accepts(job, n, k, maxlen, eps, partial):
     nn = c.native('nfa_algorithms')
     job.differential(30, lambda mv: {w: c.conc(results[w], mv) for w in words},
                      lambda mv: {w: nn.nfa_accepts_word(nat.mk_nfa(view.to_json(mv), c.native('nfa')), w) for w in words},
-                     'nfa_accepts_word')
+                     'nfa_accepts_word', replay=('nfa_accepts', {'N': view.to_json, 'word': words[-1]}))
     for w in words:
         bad = d.iff(E.lit(results[w]), view.accepts(w)) ^ 1
         job.oblige('nfa_accepts_word(N, %r) == reference' % w, bad, replay=('nfa_accepts', {'N': view.to_json, 'word': w}))
